@@ -225,6 +225,13 @@ impl IterableKind {
                     IterableKind::Iterables(v) if i < v.len() => {
                         current = &v[i];
                     }
+                    // rows of different element kinds (`[[1, 2], [3, 4.5]]`) are stored
+                    // as generic values, they can still be indexed into
+                    IterableKind::Anys(v) if i < v.len() && matches!(v[i], Primitive::Iterable(_)) => {
+                        if let Primitive::Iterable(inner) = &v[i] {
+                            current = inner;
+                        }
+                    }
                     IterableKind::Iterables(_)
                     | IterableKind::Numbers(_)
                     | IterableKind::Integers(_)
